@@ -58,11 +58,11 @@ ReadCost(I, c, part, t, a) ==
     LET cs == CellsAt(I, c)
         w == [x \in cs |-> LET cell == I.reads[x[1]].cells[x[2]]
                            IN IF cell[2] # a[PartOf(I, t, I.reads[x[1]].ind, part[x[1]])] THEN cell[3] ELSE 0]
-    IN SumSet(cs, w)
+    IN SumOver(cs, w)
 
 GenoCost(I, c, t, a) ==
     IF I.distrust
-    THEN SumSet(1..I.nInd, [i \in 1..I.nInd |-> I.gl[i][c][GenoOf(I, t, a, i) + 1]])
+    THEN SumOver(1..I.nInd, [i \in 1..I.nInd |-> I.gl[i][c][GenoOf(I, t, a, i) + 1]])
     ELSE 0
 
 AssignCost(I, c, part, t, a) == ReadCost(I, c, part, t, a) + GenoCost(I, c, t, a)
